@@ -181,8 +181,12 @@ func (p c07) RunBatch(c *fw.Ctx) {
 		stmts := g.Program(2+c.Rng.IntN(6), 1+c.Rng.IntN(3))
 		ref := gt.NewRef()
 		ref.Run(stmts)
-		if ref.Exhausted || ref.BigInPlace {
+		if ref.Exhausted {
 			continue
+		}
+		if ref.BigInPlace {
+			// programs that update a big array/map in place (where a[i] = a once built a container holding itself)
+			c.Count("ill_typed_inplace_programs", 1)
 		}
 		p.run(c, gt.Render(stmts))
 		c.Count("ill_typed_programs", 1)
